@@ -43,6 +43,10 @@ def classify(component, what, case):
         return "F55"
     if k == "hash-collision" and case.get("internal_only"):
         return "F56"
+    if k == "hash-differs" and case.get("model_agrees"):
+        return "F23"      # which features are visited depends on their position (main module / i-th submodule), not only on their names
+    if k == "yl-differs" and case.get("implemented_not_compiled") and case.get("model_agrees"):
+        return "F57"
     return None
 
 
@@ -57,7 +61,7 @@ def pending_batch(h, idx, si):
 
 
 def run_hist(cx, hs, tag, hashes):
-    base = os.path.join(paths.BUILD, "yltmp-%s-%d" % (cx.prop, cx.seed))
+    base = os.path.join(paths.BUILD, "yltmp-%s-%d-%d" % (cx.prop, cx.seed, os.getpid()))
     for i, h in enumerate(hs):
         h.write_files(os.path.join(base, "%s%d" % (tag, i)))
     lines = [h.yl_line("%s%d" % (tag, i)) for i, h in enumerate(hs)]
@@ -72,8 +76,10 @@ def run_hist(cx, hs, tag, hashes):
             cx.disagree("ctx", l[:160], a[:3], b[:3]); continue
         z = a[-1]
         impl = a[1:-1]
-        model = [cc.strip_x(t) for t in b[1:]]
-        canon = [cc.strip_fnv(t) if not t.startswith("Y") else (t if "|" not in t else "Y" + cc.strip_fnv("0" + t[1:])[1:]) for t in impl]
+        def cf(t):
+            return cc.strip_fnv(t) if not t.startswith("Y") else (t if "|" not in t else "Y" + cc.strip_fnv("0" + t[1:])[1:])
+        model = [cf(cc.strip_x(t)) for t in b[1:]]
+        canon = [cf(t) for t in impl]
         agrees = canon == model
         for (call, t) in zip(h.calls(), impl):
             cx.count(("yl", call[0], t), True, "ctx:%s" % call[0])
@@ -120,6 +126,7 @@ def run_hist(cx, hs, tag, hashes):
         cx.count(None, False, "law:yl:" + z)
         fin = next((s for s in reversed(si) if s.kind == "S"), None)
         undated = False
+        unc = bool(fin) and any(m["impl"] and m["fnv"] == "-" for m in fin.mods) and not pending_batch(h, len(h.calls()), si)
         if fin:
             repo = h.final_repo()
             for m in fin.mods:
@@ -132,19 +139,20 @@ def run_hist(cx, hs, tag, hashes):
             bits["c"] = "1"          # calls not yet committed by ly_ctx_compile(): the compiled modules are not up to date, nothing to compare
         if not (bits.get("r") == "1" and bits.get("m") == "1" and bits.get("c") == "1" and bits.get("i") == "1"):
             cx.fail("ctx", "the context rebuilt from the yang-library data differs (Z: created / same implemented+features / same compiled / all listed present)",
-                    dict(case0, kind="yl-differs", z=z, undated_with_other_revision=undated))
+                    dict(case0, kind="yl-differs", z=z, undated_with_other_revision=undated, implemented_not_compiled=unc))
         elif impl and "|" in impl[-1] and fin:
             # the same through ly_ctx_new_yldata (Y): implemented modules with features, as sets
             y = Snap("0" + impl[-1][1:])
             v1 = sorted((m["key"], m["feats"]) for m in fin.mods if m["impl"])
             v2 = sorted((m["key"], m["feats"]) for m in y.mods if m["impl"])
             if v1 != v2:
-                cx.fail("ctx", "ly_ctx_new_yldata: implemented modules / features differ", dict(case0, kind="yl-differs", y=impl[-1], undated_with_other_revision=undated))
+                cx.fail("ctx", "ly_ctx_new_yldata: implemented modules / features differ",
+                        dict(case0, kind="yl-differs", y=impl[-1], undated_with_other_revision=undated, implemented_not_compiled=unc))
     shutil.rmtree(base, ignore_errors=True)
 
 
 def real_modules(cx):
-    d = os.path.join(paths.BUILD, "ylreal-%s-%d" % (cx.prop, cx.seed))
+    d = os.path.join(paths.BUILD, "ylreal-%s-%d-%d" % (cx.prop, cx.seed, os.getpid()))
     shutil.rmtree(d, ignore_errors=True)
     os.makedirs(d)
     for src in (os.path.join(paths.REPO, "tests", "modules", "yang"), os.path.join(paths.REPO, "models")):
@@ -217,8 +225,11 @@ def run(cx):
     hashes = {}
     ws = cc.witnesses()
     hs = []
-    for name in ("F23", "F53", "F55", "F52"):
-        h = ws[name][1]; h.meta = {"kinds": ["witness:" + name]}; hs.append(h)
+    for name in ("F23", "F53", "F55", "F52", "F57"):
+        h = ws[name][1]
+        if name == "F57":
+            h = h.without_call(1)       # the state right after the successful call that leaves `maa` implemented and not compiled
+        h.meta = {"kinds": ["witness:" + name]}; hs.append(h)
     run_hist(cx, hs, "w", hashes)
     # every feature assignment x load order of a small set: equal sets from different histories -> equal hashes
     a = Mod("maa", None, feats=[Feat("f1"), Feat("f2", "f1")])
@@ -245,7 +256,7 @@ def run(cx):
                 grid.append(h)
     run_hist(cx, grid, "g", hashes)
     rng = cx.sub_rng("yl")
-    run_hist(cx, [cc.gen_yl_history(rng) for _ in range(cx.n(700, 20000))], "r", hashes)
+    run_hist(cx, [cc.gen_yl_history(rng) for _ in range(cx.n(700, 15000))], "r", hashes)
     jenkins(cx)
     real_modules(cx)
     cx.sample(hs[0].spec()[:300])
